@@ -12,7 +12,7 @@ func init() {
 	fw.Register(&fw.Check{
 		ID:    "C02",
 		Level: "exploration",
-		Rule: "inputs = atom catalogue, /repo testdata, llvm-stress programs, generated modules and, for each of them, W6 respellings (hex integers, hex floats, redundantly quoted names, comments/blank lines, shuffled definitions); for every input x the parser accepts: y=print(parse x) must be accepted, print(parse y) must equal y byte for byte, and the object graphs of parse(x) and parse(y) must serialise identically (identity-bearing objects in bijection, the rest by value). " +
+		Rule: "inputs = atom catalogue, /repo testdata, llvm-stress programs, generated modules and, for each of them, W6 respellings (hex integers, unsigned-decimal spellings of negative integers, hex floats, redundantly quoted names, comments/blank lines, shuffled definitions); for every input x the parser accepts: y=print(parse x) must be accepted, print(parse y) must equal y byte for byte, and the object graphs of parse(x) and parse(y) must serialise identically (identity-bearing objects in bijection, the rest by value). " +
 			"non-trivial = an accepted input whose printed form differs from the input text (a normalisation happened); distinct by digest of x",
 		Gen:           genC02,
 		MinNontrivial: 100,
